@@ -419,3 +419,29 @@ SPECS["C03"] = Spec(
                          "next_calls_per_handler": "0..2"},
     rule="every combination of behaviour words of the handlers that actually run; a chain is non-trivial when at least two handlers start",
 )
+
+
+# --------------------------------------------------------------------------- C14
+C14_SHAPES = ["string", "bytes", "error", "int-string", "teapot", "int-bytes", "int-error", "string-error", "bytes-error", "ptr-string", "int-ptr-string", "custom"]
+
+
+def c14_jobs(tier, seed):
+    jobs = []
+    for sh in C14_SHAPES:
+        for pos in ((0,) if tier == "quick" else (0, 2)):
+            jobs.append({"pkg_short": "flamego", "body": "VH_C14_return",
+                         "params": {"shape": sh, "len": 2 if tier == "quick" else 4, "pos": pos}})
+    return jobs
+
+
+SPECS["C14"] = Spec(
+    "C14", ["flamego/c13.go", "flamego/c14.go", "route/parse.go"], c14_jobs,
+    assumptions=[
+        "real Flame/context/inject/defaultReturnHandler/teapotInvoker/responseWriter executed; reflect.Value is the interpreter's shim over go/types (Call, Kind, Int, String, Bytes, IsZero, Interface, Elem)",
+        "returned strings/bytes/error texts are symbolic (all byte values), status symbolic in [100,999], nil-ness symbolic, two concrete error types",
+        "clauses the statement leaves open are not asserted: (int, \"\") asserts the status and no body bytes only",
+    ],
+    bounds=lambda tier: {"body_len": "0..%d bytes" % (2 if tier == "quick" else 4), "status": "[100,999]", "shapes": C14_SHAPES,
+                         "position": "after 0 (quick) / 0 and 2 (thorough) pass-through middleware"},
+    rule="one job per return shape; every value of that shape within the bounds",
+)
